@@ -4,6 +4,7 @@ import SaModel.Lemmas.C04CastLv
 import SaModel.Lemmas.C04Schema
 import SaModel.Lemmas.C04Reader
 import SaModel.Lemmas.C04Root
+import SaModel.Lemmas.C04Safe
 import SaModel.Props.C01
 import SaModel.Props.C02
 import SaModel.Props.C08
@@ -202,6 +203,26 @@ theorem C04_roundtrip_partial (c : Trace.Code) (O : Trace.Options) (ext : Ext) (
   simp only [Access.getIdx, ge_iff_le, Nat.not_le.mpr hi, if_false]
   exact hread
 
+/-- `C04_roundtrip_partial` with C01's `Safe` hypothesis DERIVED from the shape of the traced schema, for tracing options
+without `string_dictionary_encoding` (then a traced schema of the fragment contains no Dictionary, `safe_of_traced`). -/
+theorem C04_roundtrip_nodict_partial (c : Trace.Code) (O : Trace.Options) (ext : Ext) (n : String) (fs : TFields) (vs : List Val)
+    (fields : List Field) (arrs : List Arr)
+    (h0 : O.overwrites = []) (hd : O.string_dictionary_encoding = false)
+    (hfrag : frag (.struct n fs) = true) (hne : fs ≠ .nil)
+    (hwt : ∀ v ∈ vs, wt (.struct n fs) v = true)
+    (hext : Lemmas.C03.ExtOK ext)
+    (hphys : ∀ a ∈ arrs, Read.physical a = true)
+    (hft : Trace.fromType c O (toTraceTy (.struct n fs)) = .ok fields)
+    (htm : toMarrow ext fields (vs.map (ser (.struct n fs))) = .ok arrs) :
+    ∀ (i : Nat) (hi : i < vs.length),
+      readRecord (toTarget (.struct n fs)) fields arrs i = .ok (dvalOf (.struct n fs) (norm (.struct n fs) vs[i])) := by
+  have hn : noEnum (.struct n fs) = true := frag_noEnum _ hfrag
+  have hroot := C04_fromType_mapping c O h0 _ hn fields hft
+  have hfields : fields = (mappingFields (viewOpts O) fs).toList := by
+    simp [mappingRoot, mappingDT] at hroot; exact hroot.symm
+  exact C04_roundtrip_partial c O ext n fs vs fields arrs h0 hfrag hne hwt hext
+    (safe_of_traced (viewOpts O) hd fs (by simpa [noEnum] using hn) fields hfields) hphys hft htm
+
 /-! ### non-vacuity -/
 
 def exInner : Ty := .struct "Inner" (.cons "x" false (.prim (.int .i16)) (.cons "y" false (.prim .str) .nil))
@@ -234,6 +255,43 @@ def exFragVal : Val :=
     (.cons (.map (.cons (.str "k") (.char 65) .nil)) (.cons .none .nil))))
 example : frag exFragRoot = true ∧ wt exFragRoot exFragVal = true := by decide +kernel
 example : frag exRoot = false := by decide +kernel
+
+/-! non-vacuity of `C04_roundtrip_partial`: `exFragRoot` (nested Option, Vec of Option of struct, map, skipped field,
+newtype over bytes) traced under `map_as_struct = false`, a batch of two values; every hypothesis is met (computed),
+serialization succeeds, and the theorem gives the read results -/
+def exO : Trace.Options := { map_as_struct := false, sequence_as_large_list := false }
+def exFragVal2 : Val :=
+  .struct (.cons (.some (.some (.int 7))) (.cons (.vec .nil) (.cons (.map .nil) (.cons (.some (.newtype (.bytes [1, 2]))) .nil))))
+def exBatch : List Val := [exFragVal, exFragVal2]
+def exFields : List Field := match Trace.fromType .fixed exO (toTraceTy exFragRoot) with | .ok fs => fs | .error _ => []
+def exArrs : List Arr := match toMarrow {} exFields (exBatch.map (ser exFragRoot)) with | .ok a => a | .error _ => []
+
+theorem exExtOK : Lemmas.C03.ExtOK {} where
+  date32 := by intro s v h; cases h
+  date64 := by intro s v h; cases h
+  time := by intro u s v h; cases h
+  timestamp := by intro u utc s v h; cases h
+  duration := by intro u s v h; cases h
+
+theorem exTrace : Trace.fromType .fixed exO (toTraceTy exFragRoot) = .ok exFields := by decide +kernel
+theorem exBuild : toMarrow {} exFields (exBatch.map (ser exFragRoot)) = .ok exArrs := by decide +kernel
+
+example : exFields.length = 4 ∧ exArrs.length = 4 ∧ (∀ v ∈ exBatch, wt exFragRoot v = true) ∧
+    (∀ a ∈ exArrs, Read.physical a = true) ∧ norm exFragRoot exFragVal ≠ exFragVal := by decide +kernel
+
+example : ∀ (i : Nat) (hi : i < exBatch.length),
+    readRecord (toTarget exFragRoot) exFields exArrs i = .ok (dvalOf exFragRoot (norm exFragRoot exBatch[i])) := by
+  exact C04_roundtrip_nodict_partial .fixed exO {} "Root" _ exBatch exFields exArrs rfl rfl (by decide +kernel) (by simp)
+    (by decide +kernel) exExtOK (by decide +kernel) exTrace exBuild
+
+/-- what comes back for the first record: `a: Some(None)` has collapsed to `None` (the documented normalisation), the
+rest is the input -/
+example : readRecord (toTarget exFragRoot) exFields exArrs 0 =
+    .ok (.map (.cons (nameKey "a") .none
+      (.cons (nameKey "v") (.seq (.cons (.some (.map (.cons (nameKey "x") (.int .i16 3)
+          (.cons (nameKey "y") (.str .owned [97, 98]) .nil)))) (.cons .none .nil)))
+      (.cons (nameKey "m") (.map (.cons (.str .owned [107]) (.char 65) .nil))
+      (.cons (nameKey "n") .none .nil))))) := by decide +kernel
 
 example : wt exRoot exVal1 = true ∧ wt exRoot exVal2 = true := by decide +kernel
 /-- the documented collapse really happens (`Some(None)` ↦ `None`) and only there -/
